@@ -100,3 +100,57 @@ Qed.
 
 Lemma msgw_enc_le_length k v : length (enc_le k v) = k.
 Proof. revert v. induction k as [|k IH]; intros v; cbn [enc_le length]; [reflexivity|]. now rewrite IH. Qed.
+
+(* ---------- round trips of the primitives, with an arbitrary suffix ---------- *)
+Lemma msgw_dec_enc_le : forall k v, v < 256 ^ N.of_nat k -> dec_le (enc_le k v) = v.
+Proof.
+  induction k as [|k IH]; intros v Hv.
+  - cbn in *. lia.
+  - cbn [enc_le dec_le]. rewrite Nnat.Nat2N.inj_succ, N.pow_succ_r' in Hv.
+    rewrite b2n_n2b by (pose proof (N.mod_lt v 256); lia).
+    rewrite IH by (apply N.div_lt_upper_bound; lia).
+    pose proof (N.div_mod v 256). lia.
+Qed.
+
+Lemma msgw_zz_dec_enc x : zz_dec (zz_enc x) = x.
+Proof.
+  unfold zz_enc, zz_dec. destruct (x <? 0)%Z eqn:E.
+  - replace (N.even (Z.to_N (-2 * x - 1))) with false.
+    + lia.
+    + symmetry. apply Bool.not_true_iff_false. intros H. apply N.even_spec in H. destruct H as [m Hm]. lia.
+  - replace (N.even (Z.to_N (2 * x))) with true.
+    + lia.
+    + symmetry. apply N.even_spec. exists (Z.to_N x). lia.
+Qed.
+
+Lemma msgw_take_len k (b rest : list byte) : length b = k -> take k (b ++ rest) = Some (b, rest).
+Proof. intros <-. apply take_app. Qed.
+
+Lemma msgw_dec_tag_enc num typ rest :
+  1 <= num -> num <= 2147483647 -> typ < 8 ->
+  dec_tag (enc_tag num typ ++ rest) = Ok (num, typ, rest).
+Proof.
+  intros Hlo Hhi Ht. unfold dec_tag, enc_tag, encode_tag.
+  rewrite (N.mod_small typ 8) by lia.
+  rewrite varint_roundtrip by (change (2^64) with 18446744073709551616; lia).
+  unfold decode_tag.
+  replace ((num * 8 + typ) / 8) with num by lia.
+  replace ((num * 8 + typ) mod 8) with typ by lia.
+  replace (2147483647 <? num) with false by lia.
+  replace (num <? 1) with false by lia. reflexivity.
+Qed.
+
+Lemma msgw_enc_tag_nonempty num typ : exists b r, enc_tag num typ = b :: r.
+Proof.
+  unfold enc_tag, enc_varint. cbn [enc_varint_fuel].
+  destruct (encode_tag num typ <? 128); eexists; eexists; reflexivity.
+Qed.
+
+Lemma msgw_dec_bytes_enc b rest :
+  N.of_nat (length b) < 2^64 -> dec_bytes (enc_bytes b ++ rest) = Ok (b, rest).
+Proof.
+  intros H. unfold dec_bytes, enc_bytes. rewrite <- app_assoc.
+  rewrite varint_roundtrip by exact H.
+  rewrite app_length. replace (N.of_nat (length b + length rest) <? N.of_nat (length b)) with false by lia.
+  rewrite Nnat.Nat2N.id. rewrite take_app. reflexivity.
+Qed.
